@@ -202,7 +202,7 @@ def r12_3(run):
 
 def check(run):
     run.rule("R12.1", "no mutation sink (item/augmented assignment, out=, ufunc.at, copyto/put/..., in-place methods, calls that mutate a "
-             "parameter) is applied to a value that may be, or may view, caller-owned memory (input data, grad, index objects, user arrays)", floor=90)
+             "parameter) is applied to a value that may be, or may view, caller-owned memory (input data, grad, index objects, user arrays)", floor=70)
     run.rule("R12.2", "Tensor.backward applies no sink to its grad argument", floor=1)
     run.rule("R12.3", "every array stored into Tensor._grad is engine-owned: the copy rule of Operation.backward is verified against the worst "
              "case it must handle; no backward_var returns an input's array itself; seed / GRU / copy stores are fresh", floor=90)
